@@ -119,6 +119,29 @@ theorem mstep_inv (s s' : MSt) (e : MEv) (h : MInv s) (hs : mstep s e = some s')
     split at hs
     · injection hs with hs; subst hs; exact h
     · cases hs
+  | parseTooLarge n =>
+    simp only [mstep] at hs
+    split at hs
+    · rename_i hp
+      split at hs
+      · injection hs with hs; subst hs; exact h
+      · rename_i hf
+        have hf' : s.form = false := by simpa using hf
+        injection hs with hs; subst hs
+        have h1 : MInv { s with form := true, files := s.files ++ List.replicate n s.reqNum } := by
+          refine ⟨?_, by simp [hp], by simp [hp]⟩
+          intro f hfm
+          simp only [List.mem_append, List.mem_replicate] at hfm
+          rcases hfm with hfm | ⟨_, hfm⟩
+          · rcases h.owned f hfm with hd | ⟨ht, _⟩
+            · exact Or.inl hd
+            · rw [hf'] at ht; cases ht
+          · exact Or.inr ⟨rfl, hfm⟩
+        obtain ⟨ha, hb, _, _, hph⟩ := removeLive_inv _ h1
+        exact ⟨fun f hf => Or.inl (ha f hf), fun _ => hb, by rw [hph]; simp [hp]⟩
+    · split at hs
+      · injection hs with hs; subst hs; exact h
+      · cases hs
   | removeFiles =>
     simp only [mstep] at hs
     split at hs
